@@ -43,7 +43,8 @@ PROPS = {
     note=E1_NOTE,
     technique=E1_TECH,
     e1=[dict(tu="c03_rearrange.cpp"), dict(tu="c03b_dynamic.cpp"), dict(tu="c03c_reshape.cpp"), dict(tu="c15_args.cpp"), dict(tu="c02_capacity.cpp")],
-    rule=E1_RULE,
+    e2=[dict(rule="R-AXISNORM")],
+    rule=E1_RULE + "; E2: one instance per comparison of a position with an axis-valued expression in the anchor files (R-AXISNORM)",
     explanation="expected shape and source index are written from NumPy's definitions in the driver; the element law is equality of the bits loaded through the view and through the source at the expected index.",
     not_decided="squeeze (data-dependent rank), flip (negative-step slice), reshape with -1 at view level, atleast_nd element map, heap (std::vector) shapes, permutation property as such (injectivity follows from the mixed-radix theorem, not discharged)",
     assumptions=["destination index inside the view's shape"],
